@@ -61,7 +61,7 @@ Goal(g) ==
                                                                           \* the set is full again after a removal
     [] g = "connected"  -> act.a = "WProtect" /\ bud.inbound >= 1 /\ bud.fails = 0 /\ ~(\E w \in Workers : wk[w].ok)
                                                                           \* a peer found connected is added without a dial
-    [] g = "overshootround" -> act.a = "WSize" /\ act.full /\ Size > Limit \* a worker of a round started above the limit
+    [] g = "overshootround" -> act.a = "WSize" /\ act.full /\ Size > Limit \* a worker of a round started above the limit (SignedWant = FALSE only)
     [] g = "x_hardLimit"      -> ~HardLimit
     [] g = "x_roundBelow"     -> act.a = "LoopDiscover" /\ act.open /\ Size >= Limit   \* = RoundOnlyBelowLimit is violated by this step
     [] g = "x_inSetConnected" -> ~InSetConnected
